@@ -143,7 +143,7 @@ func (g *Gen) Cands() []int {
 // Commands and arguments
 
 var plainArgPool = []string{"VAR_RESULT", "ITEM_POTION", "1", "0x4000", "0x1f", "0xabc", "-3", "MSGBOX_YESNO", "OBJ_EVENT_ID_PLAYER", "0", "42", "Ünï", "ポケ", "FLAG_TEMP_1"}
-var oddTokPool = []string{"+", "-", "*", "==", "<", ">=", "!", "&&", "||", "if", "while", "global", "local", "true", "var", "flag", "default", "case", "[", "]", "=", "script", "text", "value", "@", "%", "0x1F", "007", "?", ":", "{", "}", "~", ".", ";", "$", "/", "TRUE", "false"}
+var oddTokPool = []string{"+", "-", "*", "==", "<", ">=", "!", "&&", "||", "if", "while", "global", "local", "true", "var", "flag", "default", "case", "[", "]", "=", "script", "text", "value", "@", "%", "0x1F", "007", "?", ":", "{", "}", "~", ".", ";", "$", "/", "TRUE", "false", "×", "…", "°", "“", "→"}
 
 func (g *Gen) plainArg() *Arg {
 	if !g.P.RichArgs {
@@ -203,7 +203,7 @@ func (g *Gen) Text() *TextVal {
 		t.Parts = ps
 	}
 	if g.chance(g.P.PTyped) {
-		t.Type = []string{"ascii", "braille", "custom", "ascii", "braille", "text", "if", "format"}[g.R.IntN(8)] // (a keyword directly before a quote is a string type too)
+		t.Type = []string{"ascii", "braille", "custom", "ascii", "braille", "text", "if", "format", "string"}[g.R.IntN(9)] // (a keyword directly before a quote is a string type too)
 	}
 	if g.chance(0.15) {
 		last := len(t.Parts) - 1
@@ -373,6 +373,11 @@ func (g *Gen) autoCmdFresh() (*Cmd, string) {
 	if plainIdx >= 0 && g.R.IntN(2) == 0 {
 		v := g.Name("VAR_P")
 		c.Args[plainIdx] = &Arg{Toks: []string{v}}
+		if g.R.IntN(5) == 0 {
+			// the argument at the position has several tokens: the compared var is the whole rendered argument
+			c.Args[plainIdx] = &Arg{Toks: []string{v, "+", "1"}}
+			v = v + " + 1"
+		}
 		av := AutoVar{ArgPos: plainIdx}
 		if g.R.IntN(4) == 0 {
 			av.VarName = "VAR_IGNORED_BECAUSE_OF_POSITION" // both keys in the config: the position wins
